@@ -606,6 +606,10 @@ func runC15(c *core.Ctx) {
 
 	c.Clause("D10", func() { runCallArgsGuarded(c) })
 
+	c.Clause("D11", func() { runNoMustOnWireData(c) })
+
+	c.Clause("D12", func() { runResponseCarriesHandlerError(c) })
+
 	c.Clause("D7", func() {
 		n := connPoisonRule(c, "failed-exchange-poisons-connection")
 		c.Floor("exchange sites on pooled connections", n, 28)
